@@ -186,7 +186,7 @@ def sprintf(I, fmt, args):
 @stub('fmt.Sprintf')
 def fmt_sprintf(I, args, ins):
     fargs = _fmt_args(I, args[1])
-    r = sprintf(I, args[0], fargs)
+    r = globals()['sprintf'](I, args[0], fargs)
     if r is None:
         r = I.ctx.fresh_str('sprintf')
         I.ctx.ghost.setdefault('sprintf', []).append((args[0], fargs, r))
